@@ -712,6 +712,7 @@ static void part_dfs(void) {
 	for (ci = 0; ci < (VF_THOROUGH ? 3 : 1); ci++) for (p1 = 0; p1 <= NBASE; p1++) for (e1 = 0; e1 < EV_NEVENTS; e1++) {
 		const config_t *cfg = &CONFIGS[CFG_IDX[ci]];
 		int pos[3], evs[3], p2, e2, p3, e3;
+		if (VF_THOROUGH) maxdev = ci == 0 ? 3 : 2;     /* three insertions for the first configuration, two for the others */
 		if (!vf_case_begin("dfs:cfg%d:ins%d%c:dev%d", CFG_IDX[ci], p1, EVCH[e1], maxdev)) continue;
 		dfs_runs = 0; n_transitions = 0;
 		pos[0] = p1; evs[0] = e1;
